@@ -9,12 +9,131 @@
 
 mod checks;
 mod convert;
+mod corrupt;
 mod dsbuild;
 mod framework;
 mod pdugen;
 mod simio;
 
 use std::io::Read;
+
+/// Observing allocator: remembers the largest single allocation request (a
+/// probe for C05, and a deterministic way to recognise "this reader just
+/// allocated gigabytes because a length field said so").
+pub struct PeakAlloc;
+pub static PEAK_REQUEST: std::sync::atomic::AtomicUsize = std::sync::atomic::AtomicUsize::new(0);
+
+/// Damaged length fields make the readers under test allocate (and zero)
+/// gigabytes before they notice the end of input. To keep that affordable:
+/// requests of 64 MiB and more are served by mmap with transparent huge pages
+/// (page-fault cost / 512), and at most 4 worker processes at a time may hold
+/// a request of 512 MiB or more (file locks), so RAM is never exhausted.
+const HUGE: usize = 64 << 20;
+const BIG: usize = 512 << 20;
+static BIG_COUNT: std::sync::atomic::AtomicUsize = std::sync::atomic::AtomicUsize::new(0);
+static BIG_FD: std::sync::atomic::AtomicI32 = std::sync::atomic::AtomicI32::new(-1);
+
+fn big_enter() {
+    use std::sync::atomic::Ordering::SeqCst;
+    if BIG_COUNT.fetch_add(1, SeqCst) == 0 {
+        let mut fd = BIG_FD.load(SeqCst);
+        if fd < 0 {
+            let slot = unsafe { libc::getpid() } % 4;
+            let path = format!("/tmp/dcmsim-bigalloc-{}.lock\0", slot);
+            fd = unsafe { libc::open(path.as_ptr() as *const libc::c_char, libc::O_CREAT | libc::O_RDWR, 0o666) };
+            BIG_FD.store(fd, SeqCst);
+        }
+        if fd >= 0 {
+            unsafe { libc::flock(fd, libc::LOCK_EX) };
+        }
+    }
+}
+
+fn big_leave() {
+    use std::sync::atomic::Ordering::SeqCst;
+    if BIG_COUNT.fetch_sub(1, SeqCst) == 1 {
+        let fd = BIG_FD.load(SeqCst);
+        if fd >= 0 {
+            unsafe { libc::flock(fd, libc::LOCK_UN) };
+        }
+    }
+}
+
+fn round2m(n: usize) -> usize {
+    (n + (2 << 20) - 1) & !((2 << 20) - 1)
+}
+
+unsafe fn huge_alloc(size: usize) -> *mut u8 {
+    PEAK_REQUEST.fetch_max(size, std::sync::atomic::Ordering::Relaxed);
+    if size >= BIG {
+        big_enter();
+    }
+    let len = round2m(size);
+    let p = unsafe { libc::mmap(std::ptr::null_mut(), len, libc::PROT_READ | libc::PROT_WRITE, libc::MAP_PRIVATE | libc::MAP_ANONYMOUS, -1, 0) };
+    if p == libc::MAP_FAILED {
+        if size >= BIG {
+            big_leave();
+        }
+        return std::ptr::null_mut();
+    }
+    unsafe { libc::madvise(p, len, libc::MADV_HUGEPAGE) };
+    p as *mut u8
+}
+
+unsafe fn huge_free(p: *mut u8, size: usize) {
+    unsafe { libc::munmap(p as *mut libc::c_void, round2m(size)) };
+    if size >= BIG {
+        big_leave();
+    }
+}
+
+unsafe impl std::alloc::GlobalAlloc for PeakAlloc {
+    unsafe fn alloc(&self, l: std::alloc::Layout) -> *mut u8 {
+        if l.size() >= HUGE && l.align() <= 4096 {
+            return unsafe { huge_alloc(l.size()) };
+        }
+        if l.size() > (1 << 20) {
+            PEAK_REQUEST.fetch_max(l.size(), std::sync::atomic::Ordering::Relaxed);
+        }
+        unsafe { std::alloc::System.alloc(l) }
+    }
+    unsafe fn dealloc(&self, p: *mut u8, l: std::alloc::Layout) {
+        if l.size() >= HUGE && l.align() <= 4096 {
+            return unsafe { huge_free(p, l.size()) };
+        }
+        unsafe { std::alloc::System.dealloc(p, l) };
+    }
+    unsafe fn alloc_zeroed(&self, l: std::alloc::Layout) -> *mut u8 {
+        if l.size() >= HUGE && l.align() <= 4096 {
+            // fresh anonymous mappings are zero
+            return unsafe { huge_alloc(l.size()) };
+        }
+        if l.size() > (1 << 20) {
+            PEAK_REQUEST.fetch_max(l.size(), std::sync::atomic::Ordering::Relaxed);
+        }
+        unsafe { std::alloc::System.alloc_zeroed(l) }
+    }
+    unsafe fn realloc(&self, p: *mut u8, l: std::alloc::Layout, n: usize) -> *mut u8 {
+        let old_huge = l.size() >= HUGE && l.align() <= 4096;
+        let new_huge = n >= HUGE && l.align() <= 4096;
+        if old_huge || new_huge {
+            let nl = unsafe { std::alloc::Layout::from_size_align_unchecked(n, l.align()) };
+            let q = unsafe { self.alloc(nl) };
+            if !q.is_null() {
+                unsafe { std::ptr::copy_nonoverlapping(p, q, l.size().min(n)) };
+                unsafe { self.dealloc(p, l) };
+            }
+            return q;
+        }
+        if n > (1 << 20) {
+            PEAK_REQUEST.fetch_max(n, std::sync::atomic::Ordering::Relaxed);
+        }
+        unsafe { std::alloc::System.realloc(p, l, n) }
+    }
+}
+
+#[global_allocator]
+static GLOBAL: PeakAlloc = PeakAlloc;
 
 fn main() {
     let args: Vec<String> = std::env::args().collect();
